@@ -9,11 +9,11 @@ import (
 
 // expFamily describes the expander family, found by role rather than by name.
 type expFamily struct {
-	loader      *types.Named            // the schema loader: struct with a ResolutionCache field and an *ExpandOptions field
-	resolveRef  *types.Func             // loader method that calls swag.DynamicJSONToStruct
-	members     map[*types.Func]bool    // functions with a loader (param or receiver) and a string base path that reach resolveRef
-	schemaExp   map[*types.Func]bool    // members whose first parameter is a Schema by value
-	withParents map[*types.Func]bool    // members with a []string parameter (the parent-ref stack)
+	loader      *types.Named         // the schema loader: struct with a ResolutionCache field and an *ExpandOptions field
+	resolveRef  *types.Func          // loader method that calls swag.DynamicJSONToStruct
+	members     map[*types.Func]bool // functions with a loader (param or receiver) and a string base path that reach resolveRef
+	schemaExp   map[*types.Func]bool // members whose first parameter is a Schema by value
+	withParents map[*types.Func]bool // members with a []string parameter (the parent-ref stack)
 	callees     map[*types.Func][]*types.Func
 	order       []*types.Func
 }
@@ -189,7 +189,9 @@ func (c *Ctx) family() *expFamily {
 	return fam
 }
 
-func (fam *expFamily) ok() bool { return fam.loader != nil && fam.resolveRef != nil && len(fam.members) > 0 }
+func (fam *expFamily) ok() bool {
+	return fam.loader != nil && fam.resolveRef != nil && len(fam.members) > 0
+}
 
 func funcDisplay(f *types.Func) string {
 	sig := f.Type().(*types.Signature)
